@@ -17,7 +17,7 @@ LEVEL_NOTE = ("Open at most once ACROSS fids: C07_open_one_owner (generated tabl
               "completeness against a hand-written inventory, contract table pinned; refuses unknown shapes, method values, unfollowable calls); "
               "the hand-written lock semantics (Locks/Locks.v: sync.RWMutex as mutual exclusion); 'overlap' means the instrumented backend's enter/exit events. "
               "C07_contract_sites is a FRAGMENT theorem: each thread runs the plan of ONE call site (start of the handler to the call, the call, release); that a whole "
-              "handler run is a succession of such fragments is not proved. C07_open_once is a hand model tied by open_ok (Open, the test and the update of opened inside openMu) "
+              "handler run is a succession of such fragments is not proved; C07_contract_runs (Locks/Runs.v) proves the contract for threads running ANY finite succession of fragments. C07_open_once is a hand model tied by open_ok (Open, the test and the update of opened inside openMu) "
               "and by the battery (open|open on one fid, Opens <= 1). The property's 'random concurrent workloads with an overlap monitor' run in ./check C16 (same monitor "
               "predicate LockCases.log_ok), not in ./check C07. 'Same path => same node': C07_new_refs_ok (every fidRef literal gets the node of its File) + C07_node_sources (generated: the only "
               "struct fields holding path nodes are Server.<root>, fidRef.pathNode, pathNode.childNodes; pathNodes are constructed only in NewServer and in pathNodeFor, "
